@@ -382,7 +382,7 @@ impl Callable for IsMemberOf {
     fn call(&self, ctx: ScriptContextRef, args: &[Value]) -> Result<Value, Error> {
         args!(args, ctx = ctx, a, ary);
         let vec: Arc<Vec<Value>> = ary.try_into()?;
-        let iter = vec.iter().map(|v| v.value_of(ctx.clone()));
+        let iter = vec.iter().map(|v| v.real_value_of(ctx.clone()));
         for v in iter {
             if v? == a {
                 return Ok(true.into());
